@@ -44,7 +44,9 @@ def kwargs_of(c):
                                       else {"type": "none"}) for k, v in optp.items()}
     if not c["skeep"]:
         sp = c["schedp"] if isinstance(c["schedp"], dict) else {}
-        kw["scheduler_params"] = {k: {"type": t} for k, t in sp.items()}
+        # "linzero": the library's linear schedule from the full rate down to exactly 0 at the end of this call
+        kw["scheduler_params"] = {k: ({"type": t} if t != "linzero" else
+                                      {"type": "linear", "start_factor": 1.0, "end_factor": 0.0}) for k, t in sp.items()}
     if c["cons"] == "tv":
         kw["constraints"] = {"object": {"tv_weight_xy": 1e-3}}
     return kw
@@ -67,6 +69,11 @@ def lr_value(tok):
         if not T:
             return None
         return base * (0.1 + 0.9 * min(tok["e"], T) / T)
+    if tok["sch"] == "linzero":
+        T = tok["total"]
+        if not T:
+            return None
+        return base * (1.0 - min(tok["e"], T) / T)
     return None     # plateau: depends on the loss, only twin-vs-run compared
 
 
